@@ -49,6 +49,18 @@ def set_cfg(sd, name, new_name, repl):
     return new_name
 
 
+def expect_violation(c, sd, module, cfg, prop, what):
+    """negative control: the configuration must violate exactly `prop`"""
+    res = c.tlc(sd, module, cfg, workers=1, timeout=600)
+    if res.rc == 124:
+        raise Infra("negative control timed out: " + cfg)
+    if res.violated != prop:
+        raise Infra("negative control %s: expected %s to be violated, TLC says %r\n%s" % (cfg, prop, res.violated, res.out[-1500:]))
+    c.cov["states"] += res.distinct; c.cov["transitions"] += res.generated
+    c.cov["stage_a"].append(dict(config=cfg, generated=res.generated, distinct=res.distinct, wall_s=round(res.wall, 1),
+                                 expected_violation=prop, shows=what))
+
+
 def case_of_event(e):
     op = e["op"]
     if op == "PcoBuild": return dict(kind="pco", ops=e["ops"])
@@ -108,7 +120,7 @@ def run(c):
     # ---- stage A: the specification's own laws (independent configurations side by side)
     jobs = [("MC_X02", "MC_X02", 2), ("MC_X02_dnn", "MC_X02_dnn", 2), ("MC_X02_dnn", "MC_X02_dnn_text", 1), ("MC_X02_dnn", "MC_X02_dnn_buf", 1)]
     if thorough:
-        jobs.append(("MC_X02", set_cfg(sd, "MC_X02_plmn", "MC_X02_plmn_all", [("Mccs = {0, 1, 9, 10, 99, 100, 208, 310, 460, 901, 999}", "Mccs <- AllMccs")]), 4))
+        jobs.append(("MC_X02", "MC_X02_plmn_all", 4))
         jobs.append(("MC_X02_pco", set_cfg(sd, "MC_X02_pco", "MC_X02_pco_4", [("PbMaxOps = 3", "PbMaxOps = 4")]), 6))
         jobs.append(("MC_X02_upu", "MC_X02_upu", 3))
     else:
@@ -118,9 +130,12 @@ def run(c):
     cases = []
     with ThreadPoolExecutor(max_workers=3) as ex:
         futs = [ex.submit(c.stage_a, sd, mod, cfg, workers=w, timeout=1500) for mod, cfg, w in jobs]
+        futs.append(ex.submit(expect_violation, c, sd, "MC_X02_pco", "MC_X02_pco_neg", "PbNoRefusal", "refusing calls are reachable in the builder machine (PbErrors / PbFrame are not vacuous)"))
+        futs.append(ex.submit(expect_violation, c, sd, "MC_X02_upu", "MC_X02_upu_neg", "UpuOneOctetReadable", "the declarative reader (two-octet lengths) does not read a container written with one-octet lengths"))
         for f in futs:
             f.result()
     for rec in c.cov["stage_a"]:
+        if "expected_violation" in rec: continue
         rec["laws"] = A_INV.get(rec["config"], A_INV.get(rec["config"].rsplit("_", 1)[0], ""))
     # ---- stage B: cases printed by TLC
     gens = [("MC_X02_pco", "MC_X02_pco_gen" if not thorough else set_cfg(sd, "MC_X02_pco_gen", "MC_X02_pco_gen3", [("PbMaxOps = 2", "PbMaxOps = 3")])),
